@@ -9,7 +9,9 @@ EXPLANATION = (
     "optimal n_frac; R1 a node that can be a machine integer needs a cast guard `T >= 64` with bits <= T+1 (ordering decided on terms) or an operand bound n_word <= 63 that covers it; a cast of codes to a fixed machine type (astype(np.int64)) takes the value out of its operand's carrier: unsigned words need one more bit and sums of such values need their own bound; conditional expressions inside a kernel are case-split with their tests as guards; "
     "R2 no node combines an int64 with a uint64 array (NumPy-2 promotes to float64) unless a guard implied by x.signed != y.signed makes one side Python ints; R3 set_val's machine-integer "
     "branch must be left whenever |val|*2^n_frac can reach 2^63 (the test must be on the scaled value with the int64 capacity); R4 the value type handed to the pre-scale cast never turns "
-    "Python ints into float64. Today's tree has 8 genuine violations of R1-R3 (listed in known_findings.json with failing inputs); any other node or kernel is still reported.")
+    "Python ints into float64. Today's tree has 8 genuine violations of R1-R3 (listed in known_findings.json with failing inputs); any other node or kernel is still reported."
+    " Added after the third round of seeded changes: R5 the machine carrier is int64/uint64; R6 the exact integer route is not left for any reason other than method='repr', scaling or n_frac None; operators pass op_method (C08.R4); _init_size relation for n_int == 0 (C06.R1); constructor state (C20.R2)."
+)
 ASSUMPTIONS = ["NumPy >= 2 promotion: int64 (+) uint64 -> float64; array (+) Python int keeps the array dtype; object arrays hold exact Python ints",
                "optimal sizing (C07.R1) gives n_frac = max(x.n_frac, y.n_frac) for +,- and x.n_frac + y.n_frac for *"]
 TRUSTED = ["CPython ast", "fxlint ordering procedure", "NumPy promotion lemma"]
